@@ -286,13 +286,17 @@ HttpHdrCc::packInto(Packable * p) const
             case HttpHdrCcType::CC_PUBLIC:
                 break;
             case HttpHdrCcType::CC_PRIVATE:
-                if (private_.size())
-                    p->appendf("=\"" SQUIDSTRINGPH "\"", SQUIDSTRINGPRINT(private_));
+                if (private_.size()) {
+                    const auto quoted = httpHeaderQuoteString(private_.termedBuf());
+                    p->appendf("=" SQUIDSBUFPH, SQUIDSBUFPRINT(quoted));
+                }
                 break;
 
             case HttpHdrCcType::CC_NO_CACHE:
-                if (no_cache.size())
-                    p->appendf("=\"" SQUIDSTRINGPH "\"", SQUIDSTRINGPRINT(no_cache));
+                if (no_cache.size()) {
+                    const auto quoted = httpHeaderQuoteString(no_cache.termedBuf());
+                    p->appendf("=" SQUIDSBUFPH, SQUIDSBUFPRINT(quoted));
+                }
                 break;
             case HttpHdrCcType::CC_NO_STORE:
                 break;
